@@ -29,7 +29,7 @@ Keep == UNCHANGED bud
 OpC(i) == "op" \o ToString(i)
 
 \* a dispatcher that moves without anybody's help
-CanStep == \E n \in Nodes : Ready(n)
+CanStep == \E n \in Nodes : Ready(n) \/ (up[n] /\ ctl = n /\ disp[n].st = "init")
 Waiting == \E n \in Nodes : disp[n].st = "wait"
 Leaderless == ctl = None /\ \E n \in Nodes : up[n]
 EnvOK == Eager => (~CanStep /\ ~Leaderless)
@@ -53,6 +53,7 @@ Others ==
   \* take-over while the old controller still believes it leads
   \/ \E n \in Nodes : ctl # None /\ bud.take < MaxTake /\ EnvOK /\ DoControllerChange(n) /\ Spend("take")
                       /\ L([a |-> "TakeOver", n |-> n, old |-> ctl])
+  \/ \E n \in Nodes : DoBecomeLeader(n) /\ Keep /\ L([a |-> "BecomeLeader", n |-> n])
   \/ \E n \in Nodes : DoNoticeLost(n) /\ Keep /\ L([a |-> "NoticeLost", n |-> n])
   \/ \E n \in Nodes : DoDispatchExit(n) /\ Keep /\ L([a |-> "DispatchExit", n |-> n])
   \/ \E n \in Nodes : ctl = n /\ DoDispatchPublish(n) /\ Keep /\ L([a |-> "DispatchPublish", n |-> n, id |-> disp[n].idx])
@@ -102,7 +103,7 @@ StepOK ==
   /\ CASE a.a \in {"DispatchPublish", "PublishFail"} ->
             /\ P_Publish(a.n)
             /\ C18_ResumeAbove(disp[a.n].base)
-       [] a.a \in {"Elect", "TakeOver"} -> (rs[a.n] = 0 => P_Start(a.n))
+       [] a.a = "BecomeLeader" -> (rs[a.n] = 0 => P_Start(a.n)) /\ pub' = pub
        [] OTHER -> pub' = pub
 StepsOK == [][StepOK]_mcvars
 
@@ -120,6 +121,7 @@ Fair ==
        /\ WF_mcvars(ctl # n /\ DoRecordFail(n, FALSE) /\ Keep
                     /\ L([a |-> "RecordFail", n |-> n, committed |-> FALSE, why |-> "notleader"]))
        /\ WF_mcvars(DoBackoff(n) /\ Keep /\ L([a |-> "Backoff", n |-> n]))
+       /\ WF_mcvars(DoBecomeLeader(n) /\ Keep /\ L([a |-> "BecomeLeader", n |-> n]))
        /\ WF_mcvars(DoNoticeLost(n) /\ Keep /\ L([a |-> "NoticeLost", n |-> n]))
        /\ SF_mcvars(DoDispatchExit(n) /\ Keep /\ L([a |-> "DispatchExit", n |-> n]))
        /\ WF_mcvars(DoStart(n) /\ Keep /\ L([a |-> "Start", n |-> n]))
